@@ -261,13 +261,17 @@ type QualityFeature interface {
 // of good sequence. http://www.phrap.org/phredphrap/phred.html
 func Trim(q QualityFeature, limit float64) (start, end int) {
 	var sum, max float64
+	// from is the start of the current run; it becomes the
+	// returned start only when the run is the best seen.
+	from := q.Start()
+	start, end = from, from
 	for i := q.Start(); i < q.End(); i++ {
 		sum += limit - q.EAt(i)
 		if sum < 0 {
-			sum, start = 0, i+1
+			sum, from = 0, i+1
 		}
 		if sum >= max {
-			max, end = sum, i+1
+			max, start, end = sum, from, i+1
 		}
 	}
 	return
